@@ -8,20 +8,37 @@ import proofs
 import gen_tensors as G
 from common import hx
 
-FILES = ["gen/Gen_tensors.v", "Model_voigt.v", "Model_decomp.v", "Proofs_tensors_alg.v"] + \
+FILES = ["gen/Gen_tensors.v", "gen/Gen_polar.v", "Model_voigt.v", "Model_decomp.v", "Proofs_tensors_alg.v"] + \
         [f"Proofs_tensors_rot{i}.v" for i in range(9)] + \
         ["Proofs_tensors_rot.v", "Proofs_tensors_maps.v", "Proofs_tensors_proj.v",
-         "Proofs_tensors_polar.v", "Inst_tensors.v", "Entry_tensors.v", "Extract_tensors.v"]
+         "Proofs_tensors_polar.v", "Inst_tensors.v", "Proofs_tensors_polar2.v", "Entry_tensors.v", "Extract_tensors.v"]
 PROP = "Properties/C11.v"
 
 VOIGT = {(0, 0): 0, (1, 1): 1, (2, 2): 2, (1, 2): 3, (2, 1): 3, (0, 2): 4, (2, 0): 4, (0, 1): 5, (1, 0): 5}
 
 
-def bundle(rng):
+# open findings of the unchanged tree (proposed known_findings.json entries: docs/C11.md)
+KF_TETR_INT = ("key=C11:tetr_project:integer-dtype-truncation tetr_project writes 0.5*(x[i]+x[j]) into a copy of its argument: "
+               "for an integer-dtype vector the half-integers are truncated (the value depends on the dtype of the same numbers)")
+KF_POLAR_RIGHT = ("key=C11:polar_decompose:right-variant-singular-input polar_decompose(M, left=False) computes M @ inv(Vh^T diag(S) Vh): "
+                  "for a singular M it raises LinAlgError or returns a non-orthogonal first factor (a right polar decomposition exists: R = U @ Vh)")
+
+SHAPES = {"M": (6, 6), "x": (21,), "y": (21,), "R1": (3, 3), "R2": (3, 3), "A": (3, 3),
+          "B": (3, 3), "Mi": (6, 6), "xi": (21,), "Ti": (3, 3, 3, 3), "Ri": (3, 3)}
+
+
+def bundle(rng, family=None):
+    fam = family or G.POLAR_FAMILIES[int(rng.integers(0, len(G.POLAR_FAMILIES)))]
     return dict(M=G.sym6(rng), x=rng.normal(size=21) * 100, y=rng.normal(size=21) * 100,
                 R1=G.small_rot(rng) if rng.random() < 0.3 else G.haar(rng),
                 R2=G.small_rot(rng) if rng.random() < 0.3 else G.haar(rng),
-                A=rng.normal(size=(3, 3)) * 10 ** rng.uniform(-1, 1))
+                A=rng.normal(size=(3, 3)) * 10 ** rng.uniform(-1, 1),
+                # special polar input (exactly symmetric indefinite / negative definite / singular / reflection ...)
+                B=G.polar_matrix(rng, fam),
+                # integer-valued inputs, handed over in every dtype / layout presentation
+                Mi=G.int_sym6(rng), xi=rng.integers(-200, 201, size=21).astype(float),
+                Ti=rng.integers(-200, 201, size=(3, 3, 3, 3)).astype(float),
+                Ri=rng.integers(-2, 3, size=(3, 3)).astype(float))
 
 
 def encode(b):
@@ -29,8 +46,7 @@ def encode(b):
 
 
 def decode(d):
-    shp = {"M": (6, 6), "x": (21,), "y": (21,), "R1": (3, 3), "R2": (3, 3), "A": (3, 3)}
-    return {k: np.array([common.unhx(v) for v in d[k]]).reshape(shp[k]) for k in shp}
+    return {k: np.array([common.unhx(v) for v in d[k]]).reshape(shp) for k, shp in SHAPES.items() if k in d}
 
 
 def oracle(T, b):
@@ -90,31 +106,126 @@ def oracle(T, b):
                 f.append(f"{p.__name__} is not linear")
             if k and far(P[k - 1](px.copy()), px, s=sx):
                 f.append(f"range of {p.__name__} is not inside the range of {P[k-1].__name__}")
-        # polar decomposition
-        R, Pm = T.polar_decompose(A.copy())
+        # polar decomposition: generic A and the special-family matrix B
+        for nm, X in (("A", A), ("B", b.get("B"))):
+            if X is None:
+                continue
+            R, Pm = T.polar_decompose(X.copy())
+            sx_ = max(float(np.abs(X).max()), 1e-300)
+            fl = G.polar_clauses(X / sx_, R, np.asarray(Pm) / sx_, True)
+            if fl:
+                f.append(f"left polar decomposition of {nm}: " + "; ".join(fl))
+            cond = np.linalg.cond(X) if np.any(X) else np.inf
+            if cond < 1e6:                     # singular inputs of the right variant: open finding KF_POLAR_RIGHT
+                R, U = T.polar_decompose(X.copy(), False)
+                fl = G.polar_clauses(X / sx_, R, np.asarray(U) / sx_, False, tol=1e-7, otol=max(1e-7, 1e-12 * cond ** 2))
+                if fl:
+                    f.append(f"right polar decomposition of {nm}: " + "; ".join(fl))
         sa = max(1.0, float(np.abs(A).max()))
-        if far(R.T @ R, np.eye(3), s=1.0) or far(Pm, Pm.T, s=sa) or np.linalg.eigvalsh((Pm + Pm.T) / 2).min() < -1e-9 * sa \
-                or far(Pm @ R, A, s=sa):
-            f.append("left polar decomposition: factor not orthogonal / stretch not symmetric PSD / P.R != M")
-        if np.linalg.cond(A) < 1e6:
-            R, U = T.polar_decompose(A.copy(), False)
-            if far(R.T @ R, np.eye(3), 1e-7, 1.0) or far(U, U.T, s=sa) or far(R @ U, A, 1e-7, sa):
-                f.append("right polar decomposition: factor not orthogonal / stretch not symmetric / R.U != M")
         i1, i2, i3 = T.invariants_second_order(A.copy())
         ev = np.linalg.eigvals(A)
         e = (ev.sum(), ev[0] * ev[1] + ev[1] * ev[2] + ev[2] * ev[0], ev.prod())
         if max(abs(i1 - e[0]), abs(i2 - e[1]) / sa, abs(i3 - e[2]) / sa ** 2) > 1e-8 * sa:
             f.append("invariants differ from the elementary symmetric functions of the eigenvalues")
+        f += oracle_presentations(T, b)
     except Exception as e:  # noqa: BLE001
         f.append(f"a public function raised {type(e).__name__}: {e}")
     return f
 
 
+def oracle_presentations(T, b):
+    """C11 read on other presentations (dtype / memory layout / container) of the SAME numbers: the index map, the
+    round trips, the transformation law, norm preservation and the projector laws do not depend on how the array is
+    stored.  A presentation numba has no typing for may be refused (an exception of G.REFUSAL); a value is never wrong."""
+    f = []
+    if "Mi" not in b:
+        return f
+    Mi, xi, Ti, Ri, R1 = (np.array(b[k], dtype=float) for k in ("Mi", "xi", "Ti", "Ri", "R1"))
+
+    def far(a, c, tol=1e-9, s=1.0):
+        a, c = np.asarray(a, dtype=float), np.asarray(c, dtype=float)
+        return a.shape != c.shape or not np.all(np.isfinite(a)) or float(np.abs(a - c).max()) > tol * s
+
+    def attempt(kind, what, thunk):
+        try:
+            return thunk()
+        except Exception as e:  # noqa: BLE001
+            if type(e).__name__ in G.REFUSAL and kind in G.PRES_INTEGER + ("list",):
+                return None
+            f.append(f"{what} raised {type(e).__name__} for the {kind} presentation")
+            return None
+
+    sm, sx, st = max(1.0, np.abs(Mi).max()), max(1.0, np.abs(xi).max()), max(1.0, np.abs(Ti).max())
+    ref = np.empty((3, 3, 3, 3))
+    for (p, q), i in VOIGT.items():
+        for (r, s), j in VOIGT.items():
+            ref[p, q, r, s] = Mi[i, j]
+    law_h = np.einsum("ia,jb,kc,ld,abcd->ijkl", R1, R1, R1, R1, ref)
+    law_t = np.einsum("ia,jb,kc,ld,abcd->ijkl", R1, R1, R1, R1, Ti)
+    law_i = np.einsum("ia,jb,kc,ld,abcd->ijkl", Ri, Ri, Ri, Ri, Ti)
+    vec64 = np.asarray(T.voigt_matrix_to_vector(Mi.copy()), dtype=float)
+    P = [T.mono_project, T.ortho_project, T.tetr_project, T.hex_project]
+    for kind in G.PRES_KINDS:
+        tol = 1e-5 if kind == "float32" else 1e-9
+        Mp = G.present(Mi, kind)
+        C = attempt(kind, "voigt_to_elastic_tensor", lambda: T.voigt_to_elastic_tensor(Mp))
+        if C is not None:
+            if far(C, ref, 0.0):
+                f.append(f"voigt_to_elastic_tensor of the {kind} presentation does not follow the Voigt index map")
+            back = attempt(kind, "elastic_tensor_to_voigt", lambda: T.elastic_tensor_to_voigt(C))
+            if back is not None and far(back, Mi, tol, sm):
+                f.append(f"elastic_tensor_to_voigt(voigt_to_elastic_tensor(M)) != M for the {kind} presentation")
+            rot = attempt(kind, "rotate", lambda: T.rotate(C, R1.copy()))
+            if rot is not None:
+                if far(rot, law_h, tol, sm):
+                    f.append(f"rotate(voigt_to_elastic_tensor(M), R) does not obey the transformation law when M is given as {kind}")
+                elif abs(np.linalg.norm(rot) - np.linalg.norm(ref)) > max(tol, 1e-9) * sm * 9:
+                    f.append(f"rotate does not preserve the norm when M is given as {kind}")
+        Tp = G.present(Ti, kind)
+        rot = attempt(kind, "rotate", lambda: T.rotate(Tp, R1.copy()))
+        if rot is not None and far(rot, law_t, tol, st):
+            f.append(f"rotate does not obey the transformation law for a {kind} tensor")
+        rot = attempt(kind, "rotate", lambda: T.rotate(G.present(Ti, kind), G.present(Ri, kind)))
+        if rot is not None and far(rot, law_i, tol, st * 16):
+            f.append(f"rotate does not obey the transformation law for a {kind} tensor and a {kind} matrix")
+        ev = attempt(kind, "elastic_tensor_to_voigt", lambda: T.elastic_tensor_to_voigt(Tp))
+        if ev is not None and far(ev, T.elastic_tensor_to_voigt(Ti.copy()), tol, st):
+            f.append(f"elastic_tensor_to_voigt depends on the presentation ({kind}) of the same tensor")
+        vec = attempt(kind, "voigt_matrix_to_vector", lambda: T.voigt_matrix_to_vector(Mp))
+        if vec is not None:
+            if abs(np.linalg.norm(vec) - np.linalg.norm(ref)) > max(tol, 1e-9) * sm * 9:
+                f.append(f"norm of the 21-vector of the {kind} presentation differs from the Frobenius norm of the tensor")
+            if far(T.voigt_vector_to_matrix(np.asarray(vec, dtype=float)), Mi, tol, sm):
+                f.append(f"voigt_vector_to_matrix(voigt_matrix_to_vector(M)) != M for the {kind} presentation")
+        xp = G.present(xi, kind)
+        m6 = attempt(kind, "voigt_vector_to_matrix", lambda: T.voigt_vector_to_matrix(xp))
+        if m6 is not None and far(T.voigt_matrix_to_vector(np.asarray(m6, dtype=float)), xi, tol, sx):
+            f.append(f"voigt_matrix_to_vector(voigt_vector_to_matrix(x)) != x for the {kind} presentation")
+        dv = attempt(kind, "voigt_decompose", lambda: T.voigt_decompose(Mp))
+        if dv is not None and (far(dv[0], np.einsum("ijkk->ij", ref), tol, sm) or far(dv[1], np.einsum("ijkj->ik", ref), tol, sm)):
+            f.append(f"voigt_decompose of the {kind} presentation is not the pair of contractions")
+        for k, p in enumerate(P):
+            if p is T.tetr_project and kind in G.PRES_INTEGER:
+                continue                        # open finding KF_TETR_INT (reported by the correspondence while it reproduces)
+            px = attempt(kind, p.__name__, lambda: p(G.present(xi, kind)))
+            if px is None:
+                continue
+            px = np.asarray(px, dtype=float)
+            if far(px, p(xi.copy()), tol, sx):
+                f.append(f"{p.__name__} depends on the presentation ({kind}) of the same vector")
+            elif far(p(px.copy()), px, tol, sx):
+                f.append(f"{p.__name__} is not idempotent on the {kind} presentation")
+    return f
+
+
 def search(chk, T, n=60):
+    """structured sweep: one bundle per polar family (so that exactly symmetric indefinite / singular / reflection
+    inputs are always tried), then random bundles"""
     rng = np.random.default_rng(chk.seed + 1)
     found, seen = [], set()
-    for _ in range(n):
-        b = bundle(rng)
+    plan = list(G.POLAR_FAMILIES) + [None] * n
+    for fam in plan:
+        b = bundle(rng, fam)
         fails = oracle(T, b)
         new = [m for m in fails if m not in seen]
         if new:
@@ -132,10 +243,17 @@ def run(chk):
         "every kernel of pydrex.tensors is the generated Gen_tensors.k_* (tie T); ndarray.sum() of a slice was added to the proxy (SArr.sum)",
         "rotate is run in its loop form Model_voigt.rotate4 (the unrolled generated k_rotate cannot be compiled by ocamlopt); "
         "Inst_tensors.rotate4_is_k_rotate (kernel-checked, all 81 components) ties it to the generated k_rotate",
-        "polar_decompose: hand-written Model_decomp.polar_left/right over the SVD oracle (numpy.linalg.svd); hypotheses U^T U = U U^T = I, "
-        "Vh Vh^T = Vh^T Vh = I, S >= 0, M = U diag(S) Vh are residual-checked on every case; numpy.linalg.inv modelled as adjugate/det",
+        "polar_decompose: Gen_polar.k_polar_decompose_left/right are regenerated from the source over the SVD oracle (tie T; the translator checks that "
+        "np.linalg.svd is applied to the argument, at most once; np.linalg.inv = adjugate/det, LinAlgError = ValueError; 3x3 `@`, np.diag, transpose, astype(float64) "
+        "added in specs_tensors.TArr/PolarProxy) and equated with Model_decomp.polar_left/right by Inst_tensors.polar_left_inst/polar_right_inst; oracle hypotheses "
+        "U^T U = U U^T = I, Vh Vh^T = Vh^T Vh = I, S >= 0, M = U diag(S) Vh residual-checked on the SVD the interpreted source really received (recorded)",
     ]
-    chk.cov["rule"] = ("per public function of pydrex.tensors (15 entries incl. both polar variants and both shapes of upper_tri_to_symmetric): seeded random "
+    chk.cov["rule"] = ("polar_decompose: both variants over 19 input families (exactly symmetric indefinite / negative definite / PSD-singular, rank 2 / 1 / 0, "
+                       "reflections, +-I, repeated singular values, near-symmetric, 1e-9 / 1e9 scales): interpreted source with np.linalg.svd recorded vs extracted generated code, "
+                       "compiled vs interpreted, and the clauses of the polar theorem (orthogonal, symmetric, POSITIVE SEMI-DEFINITE, product) on the compiled result; "
+                       "presentations: every kernel on integer-valued inputs as int64 / int32 / float32 / Fortran order / strided / negative strides / read-only / nested list "
+                       "(value = model's value on the same numbers, or a loud refusal); "
+                       "per public function of pydrex.tensors (13 kernels incl. both shapes of upper_tri_to_symmetric): seeded random "
                        "inputs -- full (triclinic) symmetric 6x6, non-symmetric 6x6, sparse-with-exact-zeros, SPD, the two built-in tensors; 4th-order tensors "
                        "with and without symmetries; Haar rotations and general matrices; 21-vectors; compiled implementation vs extracted generated code at 1e-11 "
                        "(polar: 1e-10, right variant scaled by cond^2); distinct = distinct (entry, input bytes); non-trivial = result not identically zero")
@@ -145,6 +263,20 @@ def run(chk):
         n = 140 if chk.tier == "quick" else 4000
         for name, (gen, fn) in G.entries(T).items():
             bad += G.compare_entry(chk, name, gen, fn, n, rng)
+        # polar_decompose: every input family, generated code on the recorded SVD, clauses incl. PSD
+        pb, pk = G.compare_polar(chk, T, 6 if chk.tier == "quick" else 150, np.random.default_rng(chk.seed + 2))
+        bad += pb
+        if pk:
+            nm, fam, detail, m = pk[0]
+            chk.cov["known_polar_right_singular"] = len(pk)
+            chk.known_finding(f"{KF_POLAR_RIGHT}; reproduced on {len(pk)} singular inputs, e.g. family {fam}, "
+                              f"M = {np.asarray(m).tolist()}: {detail}")
+        # dtype / layout / container presentations of integer-valued inputs
+        qb, qk = G.compare_presentations(chk, T, 2 if chk.tier == "quick" else 40, np.random.default_rng(chk.seed + 3))
+        bad += qb
+        if qk:
+            chk.cov["known_tetr_integer_dtype"] = len(qk)
+            chk.known_finding(f"{KF_TETR_INT}; reproduced on {len(qk)} calls, e.g. {qk[0][1]}: {qk[0][2]}")
         chk.cov["traces_validated_against_impl"] = chk.cov["evaluations"]
     chk.cov["disagreements"] = len(bad)
     if ok and not bad:
